@@ -220,6 +220,19 @@ func setup(tier string, seed uint64) {
 		}
 		handCFF = append(handCFF, data)
 	}
+	// hand-assembled CID-keyed CFF tables; the plain ones must be readable,
+	// the ones with integer operands written as reals may be refused
+	for i := 0; i < 12; i++ {
+		t := tape.New(tape.CaseSeed(seed, "C02-handcid", uint64(i)))
+		reals := i%2 == 1
+		data := simgen.HandCID(t, reals)
+		if !reals {
+			if _, err := cff.Read(bytes.NewReader(data)); err != nil {
+				panic(fmt.Sprintf("worker: hand-made CID-keyed CFF %d is rejected by cff.Read: %v", i, err))
+			}
+		}
+		handCFF = append(handCFF, data)
+	}
 }
 
 var handCFF [][]byte
@@ -536,7 +549,7 @@ func run(c *wk.Case) {
 		srcName := a.name
 		if dec == "cff.Read" && t.Chance(1, 2) {
 			i := t.Draw(len(handCFF))
-			src, srcName = handCFF[i], fmt.Sprintf("hand-made CFF with subroutines #%d", i)
+			src, srcName = handCFF[i], fmt.Sprintf("hand-made CFF #%d (0-7 with subroutines, 8-19 CID-keyed)", i)
 			c.Count("handmade_cff_cases", 1)
 		}
 		if (dec == "gtab.Read(GSUB)" || dec == "gtab.Read(GPOS)") && t.Chance(1, 6) {
